@@ -8,6 +8,7 @@ package c09
 import (
 	"bytes"
 	"context"
+	"errors"
 	"fmt"
 	"io"
 	"net"
@@ -519,7 +520,7 @@ func check(c Case, o *vf.Obs) error {
 			return fmt.Errorf("keep-alives disabled: %d requests arrived over %d connections, expected one connection per request", len(recs), len(conns))
 		}
 	} else if len(conns) > c.Instances {
-		return fmt.Errorf("keep-alives enabled, %d instances, but the target saw %d connections for %d requests", c.Instances, len(conns), len(recs))
+		return &extraConnErr{fmt.Sprintf("keep-alives enabled, %d instances, but the target saw %d connections for %d requests", c.Instances, len(conns), len(recs))}
 	}
 	// the same two clauses on what the target's accept / handshake counter shows (also connections that carried
 	// no request)
@@ -534,7 +535,7 @@ func check(c Case, o *vf.Obs) error {
 	if n := connsOpen(); c.NoKeep && (n < len(recs) || n > len(recs)+probe) {
 		return fmt.Errorf("%v gun, keep-alives disabled: the target saw %d connections being set up for %d requests (%d of them the pool's DNS pre-resolve), expected one connection per request", gun["type"], n, len(recs), probe)
 	} else if !c.NoKeep && n > c.Instances+probe {
-		return fmt.Errorf("%v gun, keep-alives enabled, %d instances, but the target saw %d connections being set up for %d requests (%d of them the pool's DNS pre-resolve)", gun["type"], c.Instances, n, len(recs), probe)
+		return &extraConnErr{fmt.Sprintf("%v gun, keep-alives enabled, %d instances, but the target saw %d connections being set up for %d requests (%d of them the pool's DNS pre-resolve)", gun["type"], c.Instances, n, len(recs), probe)}
 	}
 	// classes
 	overlap, hostAmmo := false, false
@@ -655,11 +656,51 @@ func check(c Case, o *vf.Obs) error {
 	return nil
 }
 
+// extraConnErr: with keep-alives enabled the target saw more connections than there are instances.
+type extraConnErr struct{ msg string }
+
+func (e *extraConnErr) Error() string { return e.msg }
+
+// reproducible: a surplus connection under keep-alives must show again when the same case is run again.
+// Code that loses its connections (an answer that is not drained, a client per shot, keep-alives switched off, idle
+// connections closed between shots) loses them on every run of the case. net/http's transport, on a machine that keeps
+// its goroutines waiting, dials a second connection by itself: when the next request starts before the read loop has
+// handed the connection back (it waits up to 50 ms for the write loop to report), a dial is started next to the wait
+// for the idle connection, and the target sees it whether it wins or not. vf.LoadTolerant's probe (timer wake-ups)
+// does not see every such delay. So this one failure kind - and no other: counts, bodies, headers, hosts and the
+// one-connection-per-request clause are final at once - is re-evaluated twice and reported when it shows again;
+// a surplus connection seen once in three runs is counted inconclusive_machine_load (never a pass of the oracle; the
+// driver turns a high share of such cases into an inconclusive run).
+func reproducible(prop func(Case, *vf.Obs) error) func(Case, *vf.Obs) error {
+	return func(c Case, o *vf.Obs) error {
+		err := prop(c, o)
+		var first *extraConnErr
+		if !errors.As(err, &first) {
+			return err
+		}
+		for i := 1; i <= 2; i++ {
+			o2 := &vf.Obs{}
+			if err2 := prop(c, o2); err2 != nil {
+				*o = *o2
+				var again *extraConnErr
+				if errors.As(err2, &again) {
+					return fmt.Errorf("%v (run %d of the same case: %v)", err, i+1, err2)
+				}
+				return err2
+			}
+		}
+		*o = vf.Obs{}
+		o.Class("inconclusive_machine_load", "keep_alive_surplus_connection_not_reproduced")
+		o.Note("inconclusive", err.Error())
+		return nil
+	}
+}
+
 func TestWire(t *testing.T) {
 	pand.Init()
 	r := vf.Start(t, "C09")
 	// net/http has timeouts of its own that the gun cannot configure (a connection is not reused when its write loop
 	// has not reported within 50 ms of the answer; a new one is dialled): a failure seen only while the machine kept
 	// goroutines waiting is re-evaluated, and counted inconclusive - never as a pass - if it never fails undisturbed
-	vf.Check(r, genCase, vf.LoadTolerant(25*time.Millisecond, check))
+	vf.Check(r, genCase, vf.LoadTolerant(25*time.Millisecond, reproducible(check)))
 }
